@@ -424,6 +424,10 @@ class FullEngine(Engine):
                     c = T.eq(ra, rb)                       # identity (A4 for ==)
                 else:
                     c = py_eq(ra, rb)
+            elif isinstance(a, VRef) and isinstance(b, VCls):
+                c = T.eq(a.term, T.cls_ref(b.term))          # a class seen as a value (component of a registry key)
+            elif isinstance(a, VCls) and isinstance(b, VRef):
+                c = T.eq(T.cls_ref(a.term), b.term)
             elif isinstance(a, VInt) and isinstance(b, VInt):
                 c = T.eq(a.term, b.term)
             elif isinstance(a, VBool) and isinstance(b, VBool):
@@ -530,7 +534,7 @@ class FullEngine(Engine):
             return [(p, VBound(recv, attr))]
         if isinstance(recv, VRef) and recv.role == "opaque" and attr == "items" and getattr(self.cur, "module", "").endswith("plantuml"):
             return [(p, VBound(VAttrs(recv.term), "items"))]      # an option value used as a dictionary
-        if isinstance(recv, VConst) and isinstance(recv.value, tuple) and recv.value[0] in ("memo", "dyndict", "pydict"):
+        if isinstance(recv, VConst) and isinstance(recv.value, tuple) and recv.value[0] in ("memo", "dyndict", "pydict", "smap"):
             return [(p, VBound(recv, attr))]
         if isinstance(recv, VConst) and recv.value == ("uuid4",) and attr == "int":
             u = T.fresh("uuid", Int)         # A9: uuid4().int is an arbitrary positive integer
@@ -925,6 +929,9 @@ class FullEngine(Engine):
             for (q, side) in self.fork(p, p.st.read("smap_has", M, k), "smap"):
                 out.append((q, VRef(q.st.read("smap_val", M, k), None, "opaque")) if side else (q, VRaise("KeyError")))
             return out
+        if isinstance(recv, VRef) and recv.role == "opaque" and isinstance(idx, VInt) and z3.is_int_value(idx.term) \
+                and idx.term.as_long() in (0, 1) and getattr(self.cur, "module", "").endswith("singleton"):
+            return [(p, VRef((T.pfst if idx.term.as_long() == 0 else T.psnd)(recv.term), None, "opaque"))]     # registry keys are pairs
         if isinstance(recv, VOptTable):
             if isinstance(idx, VCls):
                 out = []
@@ -1075,6 +1082,23 @@ class FullEngine(Engine):
                         return [(r, VSeq(T.Without(s, yr), ecn, "list"))]
                     return bind(self.eval(g.ifs[0].comparators[0], q), k2)
                 return bind(self.eval(g.iter, p), k1)
+            # [k for k in REGISTRY if k[0] is C]  -> the live keys whose first component is C, in (arbitrary, A9) enumeration order
+            if (isinstance(e.elt, ast.Name) and isinstance(g.target, ast.Name) and e.elt.id == g.target.id and len(g.ifs) == 1
+                    and isinstance(g.ifs[0], ast.Compare) and len(g.ifs[0].ops) == 1 and isinstance(g.ifs[0].ops[0], ast.Is)
+                    and isinstance(g.ifs[0].left, ast.Subscript) and isinstance(g.ifs[0].left.value, ast.Name)
+                    and g.ifs[0].left.value.id == g.target.id and isinstance(g.ifs[0].left.slice, ast.Constant) and g.ifs[0].left.slice.value == 0):
+                def ks(q, it):
+                    if not (isinstance(it, VConst) and isinstance(it.value, tuple) and it.value[0] == "smap"):
+                        raise Unsupported("comprehension over " + type(it).__name__)
+
+                    def kc(r, cv):
+                        cr = T.cls_ref(cv.term) if isinstance(cv, VCls) else self.ref_of(cv)
+                        if cr is None:
+                            raise Unsupported("comprehension filter value")
+                        en = self.registry_enum(r, it.value[1])
+                        return [(r, self.new_list(r, T.selkeys(en, cr), None, "keys"))]
+                    return bind(self.eval(g.ifs[0].comparators[0], q), kc)
+                return bind(self.eval(g.iter, p), ks)
             # [a for a in dir(X) if R.match(a)]  -> the names dir() lists for X that the pattern object R matches, in dir() order
             if (isinstance(e.elt, ast.Name) and isinstance(g.target, ast.Name) and e.elt.id == g.target.id and len(g.ifs) == 1
                     and isinstance(g.iter, ast.Call) and isinstance(g.iter.func, ast.Name) and g.iter.func.id == "dir" and len(g.iter.args) == 1
@@ -1091,6 +1115,16 @@ class FullEngine(Engine):
                     return bind(self.eval(g.ifs[0].func.value, q), kr)
                 return bind(self.eval(g.iter.args[0], p), kd)
         raise Unsupported("list comprehension of unsupported shape: " + ast.unparse(e))
+
+    def registry_enum(self, p: Path, M):
+        """an arbitrary duplicate-free enumeration of the live keys of the semi-singleton registry of metaclass M (dict order, A9)"""
+        s_ = T.fresh("keys", RSeq)
+        st0 = p.st.copy()
+        p.schemas.append(Schema(f"enum(registry {M})", (Ref,), lambda x, s_=s_, M=M, st0=st0: z3.And(
+            T.Cnt(s_, x) <= 1, (T.Cnt(s_, x) >= 1) == st0.read("smap_has", M, x))))
+        p.ghost = dict(p.ghost)
+        p.ghost["enums"] = tuple(p.ghost.get("enums", ())) + (s_,)
+        return s_
 
     def dyn_key(self, S):
         """identity of the dynamic-attribute part of a heap (what dir() / getattr of an object depend on)"""
@@ -1662,6 +1696,8 @@ class FullEngine(Engine):
             if name == "pop" and len(args) == 2 and isinstance(args[0], VStr):
                 p.st.write("dyn_has", (recv.value[1], args[0].term), z3.BoolVal(False))
                 return [(p, VOpaque("popped"))]
+        if isinstance(recv, VConst) and isinstance(recv.value, tuple) and recv.value[0] == "smap" and name == "items" and not args:
+            return [(p, VConst(("smapitems", recv.value[1])))]
         if isinstance(recv, VAdj) and name == "items" and not args:
             return [(p, VConst(("adjitems", recv.term)))]
         if isinstance(recv, VAttrs) and name == "items" and not args:
